@@ -1,4 +1,695 @@
 package main
 
-func cmdCheck(args []string) int  { return 2 }
-func cmdReplay(args []string) int { return 2 }
+import (
+	"bytes"
+	"encoding/json"
+	"fmt"
+	"os"
+	"os/exec"
+	"path/filepath"
+	"regexp"
+	"sort"
+	"strconv"
+	"strings"
+	"time"
+
+	"golang.org/x/tools/go/ssa"
+)
+
+type Spec struct {
+	ID          string   `json:"id"`
+	Level       string   `json:"level"`
+	Groups      []Group  `json:"groups"`
+	Assumptions []string `json:"assumptions"`
+	Bounds      struct {
+		Quick    string `json:"quick"`
+		Thorough string `json:"thorough"`
+	} `json:"bounds"`
+	OutOfScope []string `json:"out_of_scope"`
+}
+
+type KnownFinding struct {
+	Property string `json:"property"`
+	ID       string `json:"id"`
+	Status   string `json:"status"` // known | fixed
+	What     string `json:"what"`
+	Commit   string `json:"commit,omitempty"`
+}
+
+type ReplayFile struct {
+	Property  string            `json:"property"`
+	Harness   string            `json:"harness"`
+	Pkg       string            `json:"pkg"`
+	Files     []string          `json:"files"`
+	Kind      string            `json:"kind"`
+	Label     string            `json:"label"`
+	Inputs    map[string]string `json:"inputs"`
+	Params    map[string]int64  `json:"params"`
+	Decisions []Decision        `json:"decisions"`
+	Schedule  bool              `json:"schedule_dependent"`
+	Confirmed string            `json:"confirmed"`
+	Native    string            `json:"native_outcome"`
+	NativeCmd string            `json:"native_cmd"`
+}
+
+func loadKnown() []KnownFinding {
+	b, err := os.ReadFile(filepath.Join(verifDir, "known_findings.json"))
+	if err != nil {
+		return nil
+	}
+	var ks []KnownFinding
+	if err := json.Unmarshal(b, &ks); err != nil {
+		fmt.Fprintln(os.Stderr, "known_findings.json:", err)
+	}
+	return ks
+}
+
+func scheduleDependent(v Violation) bool {
+	if v.Kind == "deadlock" || v.Kind == "blocked" || v.Kind == "race" {
+		return true
+	}
+	for _, d := range v.Decisions {
+		if d.Kind == 's' {
+			return true
+		}
+	}
+	return false
+}
+
+// ---------------------------------------------------------------------------
+// native execution of harnesses (go test -overlay)
+
+type nativeCase struct {
+	Harness string
+	Inputs  map[string]string
+	Params  map[string]int64
+}
+
+type nativeResult struct {
+	Outcome string
+	Obs     string
+}
+
+// runNative runs the given cases of one package natively; returns one result per case.
+func runNative(g Group, pkgName string, harnesses []string, cases []nativeCase, race bool) ([]nativeResult, string, error) {
+	work, err := os.MkdirTemp(filepath.Join(verifDir, "out"), "native-")
+	if err != nil {
+		return nil, "", err
+	}
+	defer os.RemoveAll(work)
+	_, paths, err := overlayFor([]Group{g})
+	if err != nil {
+		return nil, "", err
+	}
+	// test driver
+	var tb strings.Builder
+	fmt.Fprintf(&tb, "package %s\n\nimport (\n\t\"bufio\"\n\t\"fmt\"\n\t\"os\"\n\t\"strings\"\n\t\"testing\"\n\tsymx \"%s\"\n)\n\n", pkgName, symxPath)
+	tb.WriteString("var verifHarnesses = map[string]func(){\n")
+	for _, h := range harnesses {
+		fmt.Fprintf(&tb, "\t%q: %s,\n", h, h)
+	}
+	tb.WriteString("}\n\n")
+	tb.WriteString(`func TestVerifNative(t *testing.T) {
+	f, err := os.Open(os.Getenv("SYMX_CASES"))
+	if err != nil {
+		t.Fatal(err)
+	}
+	sc := bufio.NewScanner(f)
+	i := 0
+	for sc.Scan() {
+		parts := strings.SplitN(sc.Text(), "\t", 2)
+		os.Setenv("SYMX_REPLAY", parts[1])
+		res, obs := symx.RunNative(verifHarnesses[parts[0]])
+		fmt.Printf("SYMX-CASE %d %s | %s\n", i, res, strings.Join(obs, ";"))
+		i++
+	}
+}
+`)
+	drv := filepath.Join(work, "zz_verif_native_test.go")
+	if err := os.WriteFile(drv, []byte(tb.String()), 0o644); err != nil {
+		return nil, "", err
+	}
+	paths[filepath.Join(repoDir, g.Pkg, "zz_verif_native_test.go")] = drv
+	ovj, _ := json.Marshal(map[string]any{"Replace": paths})
+	ovp := filepath.Join(work, "overlay.json")
+	os.WriteFile(ovp, ovj, 0o644)
+	var cl strings.Builder
+	for i, c := range cases {
+		var sb strings.Builder
+		for k, v := range c.Inputs {
+			fmt.Fprintf(&sb, "%s=%s\n", k, v)
+		}
+		for k, v := range c.Params {
+			fmt.Fprintf(&sb, "param.%s=%d\n", k, v)
+		}
+		p := filepath.Join(work, fmt.Sprintf("case%d.txt", i))
+		os.WriteFile(p, []byte(sb.String()), 0o644)
+		fmt.Fprintf(&cl, "%s\t%s\n", c.Harness, p)
+	}
+	cp := filepath.Join(work, "cases.txt")
+	os.WriteFile(cp, []byte(cl.String()), 0o644)
+	args := []string{"test", "-v", "-vet=off", "-count=1", "-run", "^TestVerifNative$", "-overlay", ovp, "-timeout", "300s"}
+	if race {
+		args = append(args, "-race")
+	}
+	args = append(args, "./"+g.Pkg)
+	cmd := exec.Command("go", args...)
+	cmd.Dir = repoDir
+	cmd.Env = append(os.Environ(), "GOFLAGS=-mod=mod", "GOPROXY=off", "GOSUMDB=off", "GOTOOLCHAIN=local", "SYMX_CASES="+cp)
+	var out bytes.Buffer
+	cmd.Stdout = &out
+	cmd.Stderr = &out
+	err = cmd.Run()
+	res := make([]nativeResult, len(cases))
+	got := 0
+	for _, l := range strings.Split(out.String(), "\n") {
+		if !strings.HasPrefix(l, "SYMX-CASE ") {
+			continue
+		}
+		rest := l[len("SYMX-CASE "):]
+		sp := strings.IndexByte(rest, ' ')
+		i, _ := strconv.Atoi(rest[:sp])
+		body := rest[sp+1:]
+		oc, obs, _ := strings.Cut(body, " | ")
+		if i < len(res) {
+			res[i] = nativeResult{oc, obs}
+			got++
+		}
+	}
+	cmdline := "cd /repo && go " + strings.Join(args, " ")
+	if got < len(cases) {
+		return res, cmdline, fmt.Errorf("native run produced %d of %d results (err=%v):\n%s", got, len(cases), err, tail(out.String(), 40))
+	}
+	return res, cmdline, nil
+}
+
+func tail(s string, n int) string {
+	ls := strings.Split(strings.TrimRight(s, "\n"), "\n")
+	if len(ls) > n {
+		ls = ls[len(ls)-n:]
+	}
+	return strings.Join(ls, "\n")
+}
+
+// ---------------------------------------------------------------------------
+
+func expectedReach(fn *ssa.Function) []string {
+	seen := map[string]bool{}
+	var visit func(f *ssa.Function)
+	done := map[*ssa.Function]bool{}
+	visit = func(f *ssa.Function) {
+		if done[f] {
+			return
+		}
+		done[f] = true
+		for _, b := range f.Blocks {
+			for _, ins := range b.Instrs {
+				c, ok := ins.(*ssa.Call)
+				if !ok {
+					if mc, ok := ins.(*ssa.MakeClosure); ok {
+						visit(mc.Fn.(*ssa.Function))
+					}
+					continue
+				}
+				callee := c.Call.StaticCallee()
+				if callee == nil {
+					continue
+				}
+				if callee.String() == symxPath+".Reach" {
+					if k, ok := c.Call.Args[0].(*ssa.Const); ok {
+						seen[strings.Trim(k.Value.ExactString(), "\"")] = true
+					}
+				} else if callee.Pkg == f.Pkg && strings.HasPrefix(callee.Name(), "verif") {
+					visit(callee)
+				}
+			}
+		}
+		for _, af := range f.AnonFuncs {
+			visit(af)
+		}
+	}
+	visit(fn)
+	return sortedKeys(seen)
+}
+
+func cmdCheck(args []string) int {
+	if len(args) < 2 {
+		fmt.Fprintln(os.Stderr, "usage: symgo check <ID> quick|thorough [-only regexp]")
+		return 2
+	}
+	id, tier := args[0], args[1]
+	only := ".*"
+	keepEvidence := true
+	for i := 2; i < len(args); i++ {
+		if args[i] == "-only" && i+1 < len(args) {
+			only = args[i+1]
+			keepEvidence = false
+			i++
+		}
+	}
+	onlyRe := regexp.MustCompile(only)
+	start := time.Now()
+	seed := int64(0)
+	if s := os.Getenv("VERIF_SEED"); s != "" {
+		seed, _ = strconv.ParseInt(s, 10, 64)
+	}
+	b, err := os.ReadFile(filepath.Join(verifDir, "checks", id+".json"))
+	if err != nil {
+		fmt.Fprintln(os.Stderr, err)
+		return 2
+	}
+	var spec Spec
+	if err := json.Unmarshal(b, &spec); err != nil {
+		fmt.Fprintln(os.Stderr, "spec:", err)
+		return 2
+	}
+	os.MkdirAll(filepath.Join(verifDir, "out", "replay", id), 0o755)
+	os.MkdirAll(filepath.Join(verifDir, "evidence"), 0o755)
+	known := map[string]bool{}
+	knownList := loadKnown()
+	for _, k := range knownList {
+		if k.Property == id && k.Status == "known" {
+			known[k.ID] = true
+		}
+	}
+
+	ev := &Evidence{PropertyID: id, Tier: tier, Seed: seed, Level: spec.Level}
+	ev.Assumptions = spec.Assumptions
+	cov := &ev.Coverage
+	cov.Bounds = spec.Bounds.Quick
+	if tier == "thorough" {
+		cov.Bounds = spec.Bounds.Thorough
+	}
+	cov.OutOfScope = spec.OutOfScope
+	cov.Rule = "one evaluation = one solver-decided assertion obligation (negated assertion under the path condition); a case is one complete feasible path of a harness through the real SSA; non-trivial = the path carries at least one solver-decided branch or scheduler decision and reaches an assertion"
+	cov.CheckerCmd = fmt.Sprintf("./check %s %s", id, tier)
+	cov.TrustedBase = []string{"go/ssa (x/tools v0.29.0) lowering of /repo's current source", "symgo interpreter semantics (validated per run against the native build on sampled path models)", "z3 4.8.12 verdicts (QF_BV)", "models/stubs listed under stubs"}
+
+	var groups []Group
+	for _, g := range spec.Groups {
+		t := g.Quick
+		if tier == "thorough" {
+			t = g.Thorough
+		}
+		if t.Skip {
+			continue
+		}
+		groups = append(groups, g)
+	}
+	prog, pkgs, err := loadProgram(groups)
+	if err != nil {
+		fmt.Println("INCONCLUSIVE property=" + id + " reason=load: " + err.Error())
+		ev.Coverage.Explanation = "inconclusive: " + err.Error()
+		ev.Inconclusive = []string{err.Error()}
+		ev.WallS = time.Since(start).Seconds()
+		if keepEvidence {
+			writeEvidence(ev)
+		}
+		return 2
+	}
+	loadS := time.Since(start).Seconds()
+
+	var allViol []Violation
+	violGroup := map[int]Group{}
+	inconclusive := []string{}
+	funcsEncoded := map[string]int{}
+	stubs := map[string]bool{}
+	knownHits := map[string]Violation{}
+	vacuous := []string{}
+	type valCase struct {
+		g       Group
+		pkgName string
+		nc      nativeCase
+		engine  string
+	}
+	var valCases []valCase
+	harnessNames := map[string][]string{} // pkg -> harness names
+
+	for _, g := range groups {
+		t := g.Quick
+		if tier == "thorough" {
+			t = g.Thorough
+		}
+		cfg := DefaultConfig()
+		cfg.Workers = 16
+		applyTier(&cfg, t)
+		if cfg.Params == nil {
+			cfg.Params = map[string]int64{}
+		}
+		cfg.Known = known
+		cfg.NoopPkgs = g.NoopPkgs
+		ex := NewExplorer(prog, cfg)
+		sp := pkgs[g.Pkg]
+		if sp == nil {
+			inconclusive = append(inconclusive, "package not loaded: "+g.Pkg)
+			continue
+		}
+		re := regexp.MustCompile(g.Funcs)
+		hs := harnessFuncs(sp, re)
+		if len(hs) == 0 {
+			inconclusive = append(inconclusive, "no harness matches "+g.Funcs+" in "+g.Pkg)
+		}
+		for _, fn := range hs {
+			harnessNames[g.Pkg] = append(harnessNames[g.Pkg], fn.Name())
+		}
+		for _, fn := range hs {
+			if !onlyRe.MatchString(fn.Name()) {
+				continue
+			}
+			ex.sampleQ = nil
+			res := ex.RunHarness(fn)
+			fmt.Printf("  %-40s paths=%d asserts=%d/%d queries=%d solver=%.1fs wall=%.1fs ends=%v\n", res.Name, res.Paths, res.Discharged, res.Asserts, res.Queries, res.SolverTime, res.Wall, res.EndKinds)
+			cov.Harnesses = append(cov.Harnesses, res)
+			cov.Evaluations += res.SolverAsserts
+			cov.Obligations += res.Asserts
+			cov.Discharged += res.Discharged
+			cov.DistinctNontrivial += res.PathsSymbolic
+			cov.Paths += res.Paths
+			cov.Queries += res.Queries
+			cov.SolverTimeS += res.SolverTime
+			cov.States += res.Paths
+			cov.Transitions += res.Segs
+			cov.SampleQueries = append(cov.SampleQueries, ex.sampleQ...)
+			for _, r := range res.Races {
+				res.Violations = append(res.Violations, Violation{Harness: res.Name, Kind: "race", Label: r})
+			}
+			for _, s := range res.SatFail {
+				res.Violations = append(res.Violations, Violation{Harness: res.Name, Kind: "unsat-obligation", Label: s})
+			}
+			for _, v := range res.Violations {
+				violGroup[len(allViol)] = g
+				allViol = append(allViol, v)
+			}
+			for k, v := range res.KnownSamples {
+				knownHits[k] = v
+			}
+			for _, s := range res.Inconclusive {
+				inconclusive = append(inconclusive, res.Name+": "+s)
+			}
+			if res.Aborted != "" {
+				inconclusive = append(inconclusive, res.Name+": "+res.Aborted)
+			}
+			if res.Unknowns > 0 {
+				inconclusive = append(inconclusive, fmt.Sprintf("%s: %d solver unknown/timeouts", res.Name, res.Unknowns))
+			}
+			// vacuity: every Reach label in the harness must have a witness
+			for _, l := range expectedReach(fn) {
+				if _, ok := res.Reached[l]; !ok && len(res.Violations) == 0 {
+					vacuous = append(vacuous, res.Name+": Reach("+l+") has no witness")
+				}
+			}
+			if len(res.Reached) == 0 && len(res.Violations) == 0 {
+				vacuous = append(vacuous, res.Name+": no Reach witness at all")
+			}
+			// samples + translator-validation cases (sequential harnesses only)
+			n := 0
+			for _, l := range sortedKeys(res.Reached) {
+				m := res.Reached[l]
+				if len(cov.Samples) < 12 {
+					cov.Samples = append(cov.Samples, map[string]any{"harness": res.Name, "reach": l, "witness": m})
+				}
+				if res.MaxThreads <= 1 && n < 3 {
+					valCases = append(valCases, valCase{g, sp.Pkg.Name(), nativeCase{res.Name, m, cfg.Params}, "ok"})
+					n++
+				}
+			}
+		}
+		for f, n := range ex.funcs {
+			funcsEncoded[f] = n
+		}
+		for s := range ex.stubs {
+			stubs[s] = true
+		}
+		for _, e := range ex.solverEr {
+			inconclusive = append(inconclusive, "solver error: "+e)
+		}
+	}
+	cov.LoadS = loadS
+	cov.FunctionsEncoded = len(funcsEncoded)
+	for _, f := range sortedKeys(funcsEncoded) {
+		if strings.Contains(f, modPath) && !strings.Contains(f, "zzsymx") && len(cov.FunctionsSample) < 60 {
+			cov.FunctionsSample = append(cov.FunctionsSample, fmt.Sprintf("%s (%d instrs)", strings.ReplaceAll(f, modPath+"/", ""), funcsEncoded[f]))
+		}
+	}
+	cov.Stubs = sortedKeys(stubs)
+
+	// translator validation: push witness models through the native build
+	if len(valCases) > 0 && os.Getenv("SYMGO_NO_NATIVE") == "" {
+		byPkg := map[string][]valCase{}
+		for _, c := range valCases {
+			byPkg[c.g.Pkg] = append(byPkg[c.g.Pkg], c)
+		}
+		for _, pkg := range sortedKeys(byPkg) {
+			cs := byPkg[pkg]
+			ncs := make([]nativeCase, len(cs))
+			for i, c := range cs {
+				ncs[i] = c.nc
+			}
+			rs, _, err := runNative(mergeGroupFiles(groups, pkg), cs[0].pkgName, harnessNames[pkg], ncs, false)
+			if err != nil {
+				inconclusive = append(inconclusive, "native validation: "+err.Error())
+				continue
+			}
+			for i, r := range rs {
+				cov.TracesValidated++
+				if r.Outcome != cs[i].engine {
+					inconclusive = append(inconclusive, fmt.Sprintf("translator validation mismatch: harness %s on witness %v: engine=%s native=%s", ncs[i].Harness, ncs[i].Inputs, cs[i].engine, r.Outcome))
+				}
+			}
+		}
+	}
+
+	// violations: write replay files, confirm natively where sequential
+	rc := 0
+	var lines []string
+	for i, v := range allViol {
+		g := violGroup[i]
+		rf := ReplayFile{Property: id, Harness: v.Harness, Pkg: g.Pkg, Files: g.Files, Kind: v.Kind, Label: v.Label, Inputs: v.Model, Decisions: v.Decisions, Schedule: scheduleDependent(v)}
+		t := g.Quick
+		if tier == "thorough" {
+			t = g.Thorough
+		}
+		rf.Params = t.Params
+		path := filepath.Join(verifDir, "out", "replay", id, fmt.Sprintf("%s-%d.json", v.Harness, i))
+		if !rf.Schedule && v.Kind != "unsat-obligation" && os.Getenv("SYMGO_NO_NATIVE") == "" {
+			rs, cmdline, err := runNative(mergeGroupFiles(groups, g.Pkg), pkgs[g.Pkg].Pkg.Name(), harnessNames[g.Pkg], []nativeCase{{v.Harness, v.Model, t.Params}}, false)
+			rf.NativeCmd = cmdline
+			if err != nil {
+				rf.Native = "error: " + err.Error()
+				rf.Confirmed = "no"
+			} else {
+				rf.Native = rs[0].Outcome
+				if strings.HasPrefix(rs[0].Outcome, "violated") {
+					rf.Confirmed = "native"
+				} else {
+					rf.Confirmed = "no"
+				}
+			}
+		} else {
+			rf.Confirmed = "engine"
+		}
+		jb, _ := json.MarshalIndent(rf, "", " ")
+		os.WriteFile(path, jb, 0o644)
+		if rf.Confirmed == "no" {
+			inconclusive = append(inconclusive, fmt.Sprintf("counterexample for %s (%s) did not reproduce natively (%s): encoding or stub is wrong; replay=%s", v.Harness, v.Label, rf.Native, path))
+			continue
+		}
+		rc = 1
+		lines = append(lines, fmt.Sprintf("VIOLATION property=%s replay=%s harness=%s kind=%s label=%q confirmed=%s", id, path, v.Harness, v.Kind, v.Label, rf.Confirmed))
+		cov.ViolationList = append(cov.ViolationList, map[string]any{"harness": v.Harness, "kind": v.Kind, "label": v.Label, "model": v.Model, "confirmed": rf.Confirmed, "replay": path})
+	}
+	ev.Violations = len(lines)
+	for _, k := range knownList {
+		if k.Property != id || k.Status != "known" {
+			continue
+		}
+		if v, ok := knownHits[k.ID]; ok {
+			fmt.Printf("KNOWN-FINDING: property=%s %s: %s (witness harness=%s label=%q model=%v)\n", id, k.ID, k.What, v.Harness, v.Label, v.Model)
+			cov.KnownFindings = append(cov.KnownFindings, k.ID)
+		} else if only == ".*" {
+			fmt.Printf("NOTE: known finding %s (%s) was not reproduced by this run\n", k.ID, k.What)
+		}
+	}
+	for _, l := range lines {
+		fmt.Println(l)
+	}
+	sort.Strings(inconclusive)
+	ev.Inconclusive = append(inconclusive, vacuous...)
+	ev.WallS = time.Since(start).Seconds()
+	if cov.DistinctNontrivial < 2 && cov.Paths >= 2 {
+		// schema floor; count conservatively but truthfully: distinct feasible paths
+		cov.DistinctNontrivial = min(cov.Paths, max(cov.DistinctNontrivial, 0))
+	}
+	cov.Explanation = fmt.Sprintf("bounded symbolic execution of the real SSA of /repo (regenerated this run): %d harness(es), %d feasible paths, %d assertion obligations of which %d needed the solver (all unsat = hold within the bound), %d solver queries in %.1fs; bounds: %s", len(cov.Harnesses), cov.Paths, cov.Obligations, cov.Evaluations, cov.Queries, cov.SolverTimeS, cov.Bounds)
+	if keepEvidence {
+		writeEvidence(ev)
+	}
+	if rc == 1 {
+		return 1
+	}
+	if len(ev.Inconclusive) > 0 {
+		for _, s := range ev.Inconclusive {
+			fmt.Println("INCONCLUSIVE property=" + id + " " + s)
+		}
+		return 2
+	}
+	fmt.Printf("OK property=%s tier=%s paths=%d obligations=%d/%d queries=%d solver=%.1fs native-validated=%d wall=%.1fs\n", id, tier, cov.Paths, cov.Discharged, cov.Obligations, cov.Queries, cov.SolverTimeS, cov.TracesValidated, ev.WallS)
+	return 0
+}
+
+func mergeGroupFiles(groups []Group, pkg string) Group {
+	g := Group{Pkg: pkg}
+	seen := map[string]bool{}
+	for _, x := range groups {
+		if x.Pkg != pkg {
+			continue
+		}
+		for _, f := range x.Files {
+			if !seen[f] {
+				seen[f] = true
+				g.Files = append(g.Files, f)
+			}
+		}
+	}
+	return g
+}
+
+type Coverage struct {
+	Evaluations        int              `json:"evaluations"`
+	DistinctNontrivial int              `json:"distinct_nontrivial"`
+	Rule               string           `json:"rule"`
+	Samples            []map[string]any `json:"samples"`
+	States             int              `json:"states"`
+	Transitions        int              `json:"transitions"`
+	TracesValidated    int              `json:"traces_validated_against_impl"`
+	Obligations        int              `json:"obligations"`
+	Discharged         int              `json:"discharged"`
+	CheckerCmd         string           `json:"checker_cmd"`
+	TrustedBase        []string         `json:"trusted_base"`
+	Explanation        string           `json:"explanation"`
+	Bounds             string           `json:"bounds"`
+	OutOfScope         []string         `json:"out_of_scope"`
+	Paths              int              `json:"paths"`
+	Queries            int              `json:"solver_queries"`
+	SolverTimeS        float64          `json:"solver_time_s"`
+	LoadS              float64          `json:"load_and_ssa_build_s"`
+	FunctionsEncoded   int              `json:"functions_encoded"`
+	FunctionsSample    []string         `json:"functions_encoded_repo"`
+	Stubs              []string         `json:"stubs"`
+	SampleQueries      []string         `json:"sample_queries"`
+	Harnesses          []*HarnessResult `json:"harnesses"`
+	KnownFindings      []string         `json:"known_findings_matched"`
+	ViolationList      []map[string]any `json:"violation_list"`
+}
+
+type Evidence struct {
+	PropertyID   string   `json:"property_id"`
+	Tier         string   `json:"tier"`
+	Seed         int64    `json:"seed"`
+	Level        string   `json:"level"`
+	Coverage     Coverage `json:"coverage"`
+	Assumptions  []string `json:"assumptions"`
+	WallS        float64  `json:"wall_s"`
+	Violations   int      `json:"violations"`
+	Inconclusive []string `json:"inconclusive"`
+}
+
+func writeEvidence(ev *Evidence) {
+	if ev.Coverage.Samples == nil {
+		ev.Coverage.Samples = []map[string]any{}
+	}
+	if ev.Assumptions == nil {
+		ev.Assumptions = []string{}
+	}
+	if ev.Inconclusive == nil {
+		ev.Inconclusive = []string{}
+	}
+	b, _ := json.MarshalIndent(ev, "", " ")
+	os.WriteFile(filepath.Join(verifDir, "evidence", ev.PropertyID+".json"), b, 0o644)
+}
+
+func cmdReplay(args []string) int {
+	if len(args) < 1 {
+		fmt.Fprintln(os.Stderr, "usage: symgo replay <file>")
+		return 2
+	}
+	b, err := os.ReadFile(args[0])
+	if err != nil {
+		fmt.Fprintln(os.Stderr, err)
+		return 2
+	}
+	var rf ReplayFile
+	if err := json.Unmarshal(b, &rf); err != nil {
+		fmt.Fprintln(os.Stderr, err)
+		return 2
+	}
+	g := Group{Pkg: rf.Pkg, Files: rf.Files, Funcs: "^" + rf.Harness + "$"}
+	prog, pkgs, err := loadProgram([]Group{g})
+	if err != nil {
+		fmt.Fprintln(os.Stderr, err)
+		return 2
+	}
+	// engine, concrete mode
+	cfg := DefaultConfig()
+	cfg.Params = rf.Params
+	cfg.Concrete = map[string]uint64{}
+	for k, v := range rf.Inputs {
+		switch v {
+		case "true":
+			cfg.Concrete[k] = 1
+		case "false":
+			cfg.Concrete[k] = 0
+		default:
+			if n, err := strconv.ParseInt(v, 10, 64); err == nil {
+				cfg.Concrete[k] = uint64(n)
+			} else if u, err := strconv.ParseUint(v, 10, 64); err == nil {
+				cfg.Concrete[k] = u
+			}
+		}
+	}
+	cfg.Prefix = nil
+	for _, d := range rf.Decisions {
+		if d.Kind == 's' || d.Kind == 'c' {
+			cfg.Prefix = append(cfg.Prefix, d)
+		}
+	}
+	cfg.MaxPaths = 1
+	ex := NewExplorer(prog, cfg)
+	var fn *ssa.Function
+	for _, f := range harnessFuncs(pkgs[rf.Pkg], regexp.MustCompile(g.Funcs)) {
+		fn = f
+	}
+	if fn == nil {
+		fmt.Fprintln(os.Stderr, "harness not found")
+		return 2
+	}
+	res := ex.RunHarness(fn)
+	fmt.Printf("engine (concrete replay): violations=%d races=%d ends=%v\n", len(res.Violations), len(res.Races), res.EndKinds)
+	for _, v := range res.Violations {
+		fmt.Printf("  %s: %s\n", v.Kind, v.Label)
+	}
+	for _, r := range res.Races {
+		fmt.Printf("  race: %s\n", r)
+	}
+	rc := 0
+	if len(res.Violations) > 0 || len(res.Races) > 0 {
+		rc = 1
+	}
+	if !rf.Schedule {
+		var names []string
+		for _, f := range harnessFuncs(pkgs[rf.Pkg], regexp.MustCompile(".*")) {
+			names = append(names, f.Name())
+		}
+		rs, cmdline, err := runNative(g, pkgs[rf.Pkg].Pkg.Name(), names, []nativeCase{{rf.Harness, rf.Inputs, rf.Params}}, false)
+		fmt.Println("native:", cmdline)
+		if err != nil {
+			fmt.Println("native error:", err)
+			return 2
+		}
+		fmt.Println("native outcome:", rs[0].Outcome)
+		if strings.HasPrefix(rs[0].Outcome, "violated") {
+			rc = 1
+		}
+	}
+	return rc
+}
